@@ -8,6 +8,7 @@
    flag is tested before the yield.  No proofs here. *)
 From Coq Require Import ZArith NArith List String Bool Floats FMapPositive.
 From EvyV Require Import Base Num Ast Omap.
+From EvyV Require Builtins.   (* the built-in functions on plain values (Props/C13.v); not imported: qualified names only *)
 Import ListNotations.
 Open Scope Z_scope.
 
@@ -617,6 +618,123 @@ Definition math1_names : list str := Eval compute in map s_ ["abs"; "sqrt"]%stri
 Definition name_is (name : str) (n : string) : bool := str_eqb name (s_ n).
 Arguments name_is name n%string.
 
+(* ---------- pure string and math built-ins: Builtins.v's functions on the loaded argument values ----------
+   They read their argument cells, allocate the result (split: one cell per part and the array)
+   and touch nothing else: no globals, no err/errmsg, no trace (SemPure.pure_builtin_spec).
+   Where Builtins.v consults an oracle (unicode case mapping outside ASCII, libm, the PRNG,
+   number formatting) the answer is ENeedOracle. *)
+Definition ascii_upper (c : N) : N := if (97 <=? c)%N && (c <=? 122)%N then (c - 32)%N else c.
+Definition ascii_lower (c : N) : N := if (65 <=? c)%N && (c <=? 90)%N then (c + 32)%N else c.
+Definition is_ascii (s : str) : bool := forallb (fun c => (c <? 128)%N) s.
+
+(* Builtins.v's oracles restricted to what is decided here (ASCII case mapping); the other
+   fields are never consulted on the paths Sem.v takes *)
+Definition ascii_oracles : Builtins.oracles :=
+  {| Builtins.o_num_str := fun _ => [];
+     Builtins.o_fmt_float := fun _ _ => [];
+     Builtins.o_upper := ascii_upper;
+     Builtins.o_lower := ascii_lower;
+     Builtins.o_is_letter := fun _ => false;
+     Builtins.o_is_print := fun c => (32 <=? c)%N && (c <=? 126)%N;   (* strconv.IsPrint on ASCII *)
+     Builtins.o_parse_float := fun _ => Builtins.PFSyntax;
+     Builtins.o_math := fun _ _ => 0%float;
+     Builtins.o_rand := fun _ => 0%Z;
+     Builtins.o_rand1 := 0%float |}.
+
+(* fmt's %v of a num is computed by Builtins.fmt_v_num without its oracle exactly for these *)
+Definition small_int (f : float) : bool :=
+  match float_to_Z f with
+  | Some z => negb (Builtins.signbit f) && (z <? 1000000)%Z
+  | None => false
+  end.
+
+(* fmt.Sprintf is computed by Builtins.sprintf_loop without its oracles when no operand is a
+   number (float formatting) and every string operand is printable ASCII (%q quoting) *)
+Definition fmt_decidable (a : Builtins.farg) : bool :=
+  match a with
+  | Builtins.FNum _ => false
+  | Builtins.FStr x => forallb (fun c => (32 <=? c)%N && (c <=? 126)%N) x
+  | Builtins.FBool _ => true
+  end.
+
+Definition pure_builtin (name : str) (args : list loc) : option (M (option loc)) :=
+  if name_is name "upper" then Some (
+    match args with
+    | [a] => let* s := load_str a in
+             if is_ascii s then let* l := alloc (HStr (Builtins.upper ascii_oracles s)) in ret (Some l)
+             else fail (ENeedOracle (s_ "unicode.ToUpper"))
+    | _ => crash "upper arity" end)
+  else if name_is name "lower" then Some (
+    match args with
+    | [a] => let* s := load_str a in
+             if is_ascii s then let* l := alloc (HStr (Builtins.lower ascii_oracles s)) in ret (Some l)
+             else fail (ENeedOracle (s_ "unicode.ToLower"))
+    | _ => crash "lower arity" end)
+  else if name_is name "trim" then Some (
+    match args with
+    | [a; b] => let* s := load_str a in let* cut := load_str b in
+                let* l := alloc (HStr (Builtins.trim s cut)) in ret (Some l)
+    | _ => crash "trim arity" end)
+  else if name_is name "replace" then Some (
+    match args with
+    | [a; b; c] => let* s := load_str a in let* o := load_str b in let* n := load_str c in
+                   let* l := alloc (HStr (Builtins.replace s o n)) in ret (Some l)
+    | _ => crash "replace arity" end)
+  else if name_is name "index" then Some (
+    match args with
+    | [a; b] => let* s := load_str a in let* sub := load_str b in
+                let* l := alloc (HNum (float_of_Z (Builtins.index_chars s sub))) in ret (Some l)
+    | _ => crash "index arity" end)
+  else if name_is name "split" then Some (
+    match args with
+    | [a; b] => let* s := load_str a in let* sep := load_str b in
+                let* ls := mapM (fun p => alloc (HStr p)) (Builtins.split s sep) in
+                let* l := alloc (HArr ls) in ret (Some l)
+    | _ => crash "split arity" end)
+  else if name_is name "floor" then Some (
+    match args with [a] => let* x := load_num a in let* l := alloc (HNum (Builtins.go_floor x)) in ret (Some l)
+               | _ => crash "floor arity" end)
+  else if name_is name "ceil" then Some (
+    match args with [a] => let* x := load_num a in let* l := alloc (HNum (Builtins.go_ceil x)) in ret (Some l)
+               | _ => crash "ceil arity" end)
+  else if name_is name "round" then Some (
+    match args with [a] => let* x := load_num a in let* l := alloc (HNum (Builtins.go_round x)) in ret (Some l)
+               | _ => crash "round arity" end)
+  else if name_is name "pow" then Some (
+    match args with [a; b] => let* x := load_num a in let* y := load_num b in fail (ENeedOracle (s_ "math.Pow"))
+               | _ => crash "pow arity" end)
+  else if name_is name "atan2" then Some (
+    match args with [a; b] => let* x := load_num a in let* y := load_num b in fail (ENeedOracle (s_ "math.Atan2"))
+               | _ => crash "atan2 arity" end)
+  else if name_is name "log" then Some (
+    match args with [a] => let* x := load_num a in fail (ENeedOracle (s_ "math.Log"))
+               | _ => crash "log arity" end)
+  else if name_is name "sin" then Some (
+    match args with [a] => let* x := load_num a in fail (ENeedOracle (s_ "math.Sin"))
+               | _ => crash "sin arity" end)
+  else if name_is name "cos" then Some (
+    match args with [a] => let* x := load_num a in fail (ENeedOracle (s_ "math.Cos"))
+               | _ => crash "cos arity" end)
+  else if name_is name "rand" then Some (
+    match args with
+    | [a] => let* x := load_num a in
+             if negb (PrimFloat.leb 1 x && PrimFloat.leb x 2147483647) then fail (EPanic PkBadArguments)
+             else fail (ENeedOracle (s_ "RandSource.Int31n"))
+    | _ => crash "rand arity" end)
+  else if name_is name "rand1" then Some (
+    match args with [] => fail (ENeedOracle (s_ "RandSource.Float64")) | _ => crash "rand1 arity" end)
+  else if name_is name "hsl" then Some (
+    let* nums := mapM load_num args in
+    match Builtins.hsl_model ascii_oracles nums with
+    | Builtins.OPanic _ => fail (EPanic PkBadArguments)
+    | Builtins.ORet (Builtins.VStr t) =>
+        if forallb small_int nums then let* l := alloc (HStr t) in ret (Some l)
+        else fail (ENeedOracle (s_ "FormatFloat"))
+    | _ => crash "hsl: unexpected outcome"
+    end)
+  else None.
+
+
 Definition builtin (name : str) (e : env) (args : list loc) : option (M (option loc)) :=
   if name_is name "print" then Some (
     let* p := join_args args (s_ " ") in
@@ -748,6 +866,54 @@ Definition builtin (name : str) (e : env) (args : list loc) : option (M (option 
   else if name_is name "sqrt" then Some (
     match args with [a] => let* x := load_num a in let* l := alloc (HNum (PrimFloat.sqrt x)) in ret (Some l)
                | _ => crash "sqrt arity" end)
+  else if name_is name "sprintf" then Some (
+    (* sprintf(format, unwrapBasicvalue(args)...): the first argument must hold a string *)
+    match args with
+    | [] => fail (EPanic PkBadArguments)
+    | f :: rest =>
+        let* fv := unwrap_any f in
+        match fv with
+        | HStr fs =>
+            let* fargs := mapM (fun a => let* v := unwrap_any a in
+                                         match v with
+                                         | HNum x => ret (Builtins.FNum x)
+                                         | HStr x => ret (Builtins.FStr x)
+                                         | HBool b => ret (Builtins.FBool b)
+                                         | _ => let* x := show_str a in ret (Builtins.FStr x)
+                                         end) rest in
+            if forallb fmt_decidable fargs then
+              match Builtins.sprintf_loop ascii_oracles (S (List.length fs)) fs fargs with
+              | Some r => let* l := alloc (HStr r) in ret (Some l)
+              | None => fail (ENeedOracle (s_ "fmt.Sprintf"))
+              end
+            else fail (ENeedOracle (s_ "fmt.Sprintf"))
+        | _ => fail (EPanic PkBadArguments)
+        end
+    end)
+  else if name_is name "printf" then Some (
+    (* sprintf(format, unwrapBasicvalue(args)...): the first argument must hold a string *)
+    match args with
+    | [] => fail (EPanic PkBadArguments)
+    | f :: rest =>
+        let* fv := unwrap_any f in
+        match fv with
+        | HStr fs =>
+            let* fargs := mapM (fun a => let* v := unwrap_any a in
+                                         match v with
+                                         | HNum x => ret (Builtins.FNum x)
+                                         | HStr x => ret (Builtins.FStr x)
+                                         | HBool b => ret (Builtins.FBool b)
+                                         | _ => let* x := show_str a in ret (Builtins.FStr x)
+                                         end) rest in
+            if forallb fmt_decidable fargs then
+              match Builtins.sprintf_loop ascii_oracles (S (List.length fs)) fs fargs with
+              | Some r => let* _ := emitE (EvPrint [PStr r]) in none_val
+              | None => fail (ENeedOracle (s_ "fmt.Sprintf"))
+              end
+            else fail (ENeedOracle (s_ "fmt.Sprintf"))
+        | _ => fail (EPanic PkBadArguments)
+        end
+    end)
   else if existsb (str_eqb name) gfx_num_names then Some (
     match args with [a] => let* x := load_num a in let* _ := emitE (EvGfx name [x] []) in none_val
                | _ => crash "gfx arity" end)
@@ -759,12 +925,11 @@ Definition builtin (name : str) (e : env) (args : list loc) : option (M (option 
     match args with [a] => let* x := load_str a in
                            let* _ := emitE (EvGfx (if str_eqb name (s_ "colour") then s_ "color" else name) [] [x]) in none_val
                | _ => crash "gfx arity" end)
-  else None.
+  else pure_builtin name args.
 
 (* names of builtins that exist in evy but are outside this model *)
 Definition unmodelled_builtins : list str := Eval compute in map s_
-  ["printf"; "sprintf"; "split"; "upper"; "lower"; "index"; "trim"; "replace"; "repr"; "rand"; "rand1";
-   "floor"; "ceil"; "round"; "pow"; "log"; "sin"; "cos"; "atan2"; "hsl"; "clear"; "grid"; "gridn"; "poly";
+  ["repr"; "clear"; "grid"; "gridn"; "poly";
    "ellipse"; "dash"; "font"; "test"]%string.
 
 (* ---------- the evaluator ---------- *)
